@@ -27,6 +27,7 @@ def run(chk, ix, tier):
     rules_outline.check_build_order(chk, ix)
     rules_junit.check_process_scenario(chk, ix)
     rules_junit.check_culprit_step(chk, ix)
+    rules_junit.check_problem_description_names_step(chk, ix)
     rules_junit.check_cdata_path(chk, ix)
     rules_junit.check_walker_and_capture(chk, ix)
     rules_junit.check_illegal_char_table(chk, ix)
